@@ -412,7 +412,10 @@ class TaskShuffle(SimpleShuffle):
             if stage == (stages - 1) and npartitions == npartitions_input:
                 name = self._name
                 parts_out = self._partitions
-                _filter = parts_out if self._filtered else None
+                # with several stages the groups of a stage are digits, not
+                # output partition numbers: the selection is already made by
+                # the output keys that are created
+                _filter = parts_out if self._filtered and stages == 1 else None
             else:
                 name = f"stage-{stage}-{self._name}"
                 _filter = None
